@@ -472,7 +472,7 @@ fn run_batches(c: &Config, seed: u64, stream: u64, n_batches: usize, per_batch: 
                     let mut val = o.jacobian * test_function(c, &o.k);
                     let mut suspicious = !val.is_finite() || val < 0.0;
                     if let Some((lo, hi)) = c.weight_interval {
-                        let lr = (o.jacobian / c.su.tv.cached_factor).ln();
+                        let lr = (o.jacobian / c.su.norm).ln();
                         if !(lr >= lo - 1e-3 * (1.0 + lo.abs()) && lr <= hi + 1e-3 * (1.0 + hi.abs())) {
                             suspicious = true;
                         }
@@ -491,7 +491,7 @@ fn run_batches(c: &Config, seed: u64, stream: u64, n_batches: usize, per_batch: 
                             let v2 = od.jacobian.hi * test_function(c, &kd);
                             let inside = match c.weight_interval {
                                 Some((lo, hi)) => {
-                                    let lr = (od.jacobian.hi / c.su.tv.cached_factor).ln();
+                                    let lr = (od.jacobian.hi / c.su.norm).ln();
                                     lr >= lo - 1e-3 * (1.0 + lo.abs()) && lr <= hi + 1e-3 * (1.0 + hi.abs())
                                 }
                                 None => true,
@@ -568,7 +568,7 @@ fn z_eff(t: &Tally, c: &Config) -> f64 {
     let (_, mean, se) = z_of(t, c.exact);
     let lost = (t.unrescued + t.errs_matrix) as f64 / t.n as f64;
     let unc = match c.weight_interval {
-        Some((_lo, hi)) => lost * hi.exp() * c.su.tv.cached_factor * c.g_max,
+        Some((_lo, hi)) => lost * hi.exp() * c.su.norm * c.g_max,
         None => if lost > 0.0 { f64::INFINITY } else { 0.0 },
     };
     let dev = if mean < c.exact { (c.exact - mean - unc).max(0.0) } else { mean - c.exact };
@@ -672,7 +672,7 @@ pub fn run(ctx: &Ctx) -> i32 {
         // a-priori interval, so the mean can be short by at most `unc`.
         let lost = (tot.unrescued + tot.errs_matrix) as f64 / tot.n as f64;
         let unc = match c.weight_interval {
-            Some((_lo, hi)) => lost * hi.exp() * c.su.tv.cached_factor * c.g_max,
+            Some((_lo, hi)) => lost * hi.exp() * c.su.norm * c.g_max,
             None => if lost > 0.0 { f64::INFINITY } else { 0.0 },
         };
         let dev = if mean < c.exact { (c.exact - mean - unc).max(0.0) } else { mean - c.exact };
